@@ -1,6 +1,6 @@
 (* C16 -- FITS output followed by input reproduces values, orientation and pixel scale.
-   Statements only.  The model (Model/C16.v) follows the code as repaired by fixes/C16_array1d_hdu_flip.diff and
-   fixes/C16_anisotropic_pixel_scale_header.diff.  The value statements hold for EVERY number
+   Statements only.  The model (Model/C16.v) follows the code after the repairs 9d3d532 (fixes/C16_array1d_hdu_flip.diff) and
+   770955c (fixes/C16_anisotropic_pixel_scale_header.diff).  The value statements hold for EVERY number
    system [O : NumOps] satisfying the five laws [lawful O] (Proofs/C16.v: x == x; x == y only for equal values;
    1 != 0; x * 1 = x; x / 1 = x) -- in particular for the real numbers (C16_reals_are_lawful); arrays are lists of rows of ANY
    lengths (1xN, Nx1, non-square and even ragged), [flip] is general.fits.flip_for_ds9 and is universally quantified
